@@ -768,6 +768,33 @@ class Normalizer:
             if r[0] == 'ret':
                 raise Unsupported('return inside loop')
             bodies = {v: r[1].get(v, ('undef', '<local>')) for v in carried}
+            # N34: `for i in range(T): A[:, i] = g(i)` with T the column count of A's initial value overwrites every column of A: of the
+            # initial value only shape and dtype survive (a zero buffer and a copy of an input of that shape and dtype give the same result)
+            if isinstance(st, ast.For) and header[1][0] == 'call' and header[1][1] == 'range' and len(header[1][2]) == 1 and not header[1][3]:
+                T_ = header[1][2][0]
+                for k, v in enumerate(carried):
+                    b_ = bodies[v]
+                    if v != '$eff' and isinstance(b_, tuple) and b_ and b_[0] == 'store' and len(b_) == 4 and b_[1] == ('lv', d, k) \
+                            and b_[2] == (('sl', None, None, None), ('iv', d)) and isinstance(inits[v], tuple):
+                        try:
+                            if self._shape_ext(inits[v], 1) == T_:
+                                inits[v] = ('shapeonly', self._shape_ext(inits[v], 0), T_, self._dtype_of(inits[v]))
+                                self.loop_inits[(d, k)] = inits[v]
+                        except Exception:  # noqa
+                            pass
+                    # the same with column 0 written before the loop and columns 1 .. T written by it
+                    elif v != '$eff' and isinstance(b_, tuple) and b_ and b_[0] == 'store' and len(b_) == 4 and b_[1] == ('lv', d, k) \
+                            and len(b_[2]) == 2 and b_[2][0] == ('sl', None, None, None) and b_[2][1] == self.binop('+', ('iv', d), num(1)) \
+                            and isinstance(inits[v], tuple) and inits[v] and inits[v][0] == 'store' and len(inits[v]) == 4 \
+                            and inits[v][2] == (('sl', None, None, None), num(0)) and isinstance(inits[v][1], tuple):
+                        try:
+                            base_ = inits[v][1]
+                            if self.int_add(self._shape_ext(base_, 1), -1) == T_:
+                                inits[v] = ('store', ('shapeonly', self._shape_ext(base_, 0), self._shape_ext(base_, 1), self._dtype_of(base_)),
+                                            inits[v][2], inits[v][3])
+                                self.loop_inits[(d, k)] = inits[v]
+                        except Exception:  # noqa
+                            pass
             raw = ('rawloop', d, header, tuple((inits[v], bodies[v]) for v in carried))
             for k, v in enumerate(carried):
                 env[v] = ('lout', raw, k) if bodies[v] != ('lv', d, k) else inits[v]     # a value the body never changes
@@ -790,6 +817,27 @@ class Normalizer:
                 env[tv[0]] = ('lastiv', raw)
         finally:
             self.depth -= 1
+
+    def _shape_ext(self, t, axis):
+        if t[0] == 'call' and t[1] in ('numpy.zeros', 'numpy.empty', 'numpy.ones') and t[2]:
+            S = t[2][0]
+            if S[0] == 'tuple':
+                return S[1][axis]
+            return self.index(S, (num(axis),))
+        if t[0] == 'call' and t[1] in ('numpy.zeros_like', 'numpy.empty_like') and t[2]:
+            return self.index(('attr', t[2][0], 'shape'), (num(axis),))
+        return self.index(('attr', t, 'shape'), (num(axis),))
+
+    def _dtype_of(self, t):
+        """element type of a buffer; array inputs are float64 (the assumption N2 already makes when it drops .astype(float)), so
+        `<array>.dtype` and the default of the constructors are the same type"""
+        F64 = ('mod', 'numpy.float64')
+        if t[0] == 'call' and t[1] in ('numpy.zeros', 'numpy.empty', 'numpy.ones', 'numpy.zeros_like', 'numpy.empty_like'):
+            dt = dict(t[3]).get('dtype', F64)
+            if dt in (F64, ('g', 'float'), ('mod', 'numpy.double')) or (isinstance(dt, tuple) and dt and dt[0] == 'attr' and dt[2] == 'dtype'):
+                return F64
+            return dt
+        return F64
 
     def _mentions_loop(self, t, d, carried_only=False, memo=None):
         if not isinstance(t, tuple) or not t:
